@@ -1,0 +1,65 @@
+//! Verification hooks. Compiled only with `--cfg lean_string_verif`.
+//!
+//! - the crate's own `alloc` / `realloc` / `dealloc` calls go through replaceable function
+//!   pointers (default: the global allocator), so a harness can count, refuse and shadow them;
+//! - raw accesses to a heap buffer are reported through `note`.
+
+use core::alloc::Layout;
+use core::sync::atomic::{AtomicUsize, Ordering::SeqCst};
+
+pub type AllocFn = unsafe fn(Layout) -> *mut u8;
+pub type ReallocFn = unsafe fn(*mut u8, Layout, usize) -> *mut u8;
+pub type DeallocFn = unsafe fn(*mut u8, Layout);
+pub type NoteFn = fn(u8, *const u8, usize);
+
+/// `note` kinds.
+pub const NOTE_READ: u8 = 0;
+pub const NOTE_WRITE: u8 = 1;
+pub const NOTE_HEADER: u8 = 2;
+
+static ALLOC: AtomicUsize = AtomicUsize::new(0);
+static REALLOC: AtomicUsize = AtomicUsize::new(0);
+static DEALLOC: AtomicUsize = AtomicUsize::new(0);
+static NOTE: AtomicUsize = AtomicUsize::new(0);
+
+pub fn set_allocator(alloc: AllocFn, realloc: ReallocFn, dealloc: DeallocFn) {
+    ALLOC.store(alloc as usize, SeqCst);
+    REALLOC.store(realloc as usize, SeqCst);
+    DEALLOC.store(dealloc as usize, SeqCst);
+}
+
+pub fn set_note(note: NoteFn) {
+    NOTE.store(note as usize, SeqCst);
+}
+
+#[inline]
+pub(crate) unsafe fn alloc(layout: Layout) -> *mut u8 {
+    match ALLOC.load(SeqCst) {
+        0 => unsafe { alloc::alloc::alloc(layout) },
+        f => unsafe { core::mem::transmute::<usize, AllocFn>(f)(layout) },
+    }
+}
+
+#[inline]
+pub(crate) unsafe fn realloc(ptr: *mut u8, layout: Layout, new_size: usize) -> *mut u8 {
+    match REALLOC.load(SeqCst) {
+        0 => unsafe { alloc::alloc::realloc(ptr, layout, new_size) },
+        f => unsafe { core::mem::transmute::<usize, ReallocFn>(f)(ptr, layout, new_size) },
+    }
+}
+
+#[inline]
+pub(crate) unsafe fn dealloc(ptr: *mut u8, layout: Layout) {
+    match DEALLOC.load(SeqCst) {
+        0 => unsafe { alloc::alloc::dealloc(ptr, layout) },
+        f => unsafe { core::mem::transmute::<usize, DeallocFn>(f)(ptr, layout) },
+    }
+}
+
+#[inline]
+pub(crate) fn note(kind: u8, ptr: *const u8, len: usize) {
+    match NOTE.load(SeqCst) {
+        0 => {}
+        f => unsafe { core::mem::transmute::<usize, NoteFn>(f)(kind, ptr, len) },
+    }
+}
